@@ -28,7 +28,7 @@ TECHNIQUE = ("Coq proof about a state-machine model of the fit bookkeeping with 
 
 HEADER = ("From Coq Require Import Reals List ZArith Bool Arith.\nFrom Interval Require Import Tactic.\n"
           "From TFV Require Import Base.RBase Base.Tie State.Fit.\nImport ListNotations.\nOpen Scope R_scope.\n")
-UNF = ("bt read write lookup inb mem set_bound remove_bound set_all trans_vals set_trans_var std_skip std_one standard_complex "
+UNF = ("bt read write lookup inb mem set_bound remove_bound set_all trans_vals set_trans_var std_skip std_one standard_complex wrap1 wrap_phase "
        "get_params get_params_train fit fit_bfgs fit_lbfgsb fit_newton fit_minuit cellof store allnames train bnd polar r_params r_min "
        "fst snd map combine nth fold_left app Nat.eqb orb negb")
 TAC = "cbv [%s]; rclose" % UNF
